@@ -91,9 +91,46 @@ fn shape_for(n: usize, unreadable: u64, rot: usize) -> Shape {
 }
 
 pub fn run_case(n: usize, unreadable: u64, rot: usize, failpoint: bool) -> CaseResult {
+    run_case_h(n, unreadable, rot, failpoint, 0)
+}
+
+/// `helper`: 0 none; otherwise a sandbox-helper look-alike (spin thread with a null stack pointer, which the
+/// writer drops at suspension) is added: 1 = created FIRST with an unreadable name, 2 = first with a readable
+/// name, 3 = created LAST with an unreadable name, 4 = last with a readable name.
+pub fn run_case_h(n: usize, unreadable: u64, rot: usize, failpoint: bool, helper: u8) -> CaseResult {
+    use crate::puppet::{Kind, Puppet, RSP};
     let shape = shape_for(n, unreadable, rot);
-    let b = build(&shape);
-    let case = json!({"n": n, "unreadable_mask": unreadable, "rot": rot, "failpoint": failpoint});
+    let mk_helper = |p: &mut Puppet| {
+        let t = p.mkthread(Kind::Spin);
+        p.set_gpr(t, RSP, 0);
+        let tid = p.start(t);
+        p.set_name(tid, if helper % 2 == 1 { b"\xfe\xff\x80" } else { b"helper" });
+    };
+    let b = if helper == 0 {
+        build(&shape)
+    } else {
+        // build by hand so that the helper can come first in the kernel's thread list
+        let mut p = Puppet::spawn();
+        if helper <= 2 {
+            mk_helper(&mut p);
+        }
+        let first = p.threads.len();
+        for _ in 1..shape.n {
+            p.add_thread(Kind::Block);
+        }
+        for (i, name) in shape.names.iter().enumerate() {
+            if let Some(nm) = name {
+                let tid = if i == 0 { p.pid } else if first + i - 1 < p.threads.len() { p.threads[first + i - 1].tid } else { continue };
+                p.set_name(tid, nm);
+            }
+        }
+        if helper >= 3 {
+            mk_helper(&mut p);
+        }
+        p.quiesce();
+        crate::shapes::Built { p, pattern_addrs: vec![], file_addrs: vec![] }
+    };
+    let case = json!({"n": n, "unreadable_mask": unreadable, "rot": rot, "failpoint": failpoint, "helper": helper});
     let mut fp = minidump_writer::FailSpotName::testing_client();
     if failpoint {
         fp.set_enabled(minidump_writer::FailSpotName::ThreadName, true);
@@ -117,11 +154,11 @@ pub fn run_case(n: usize, unreadable: u64, rot: usize, failpoint: bool) -> CaseR
 }
 
 pub fn run(ctx: &Ctx, rep: &mut Report) {
-    rep.rule = "thread count N x every subset U of threads with an unreadable (non-UTF-8) kernel name x 3 rotations of a 12-name alphabet (ASCII, 15/16 bytes, non-ASCII UTF-8 incl. astral plane, inner/trailing whitespace, empty, whitespace only), plus the ThreadName fail point; nontrivial = cases with at least one named AND one unnamed listed thread".into();
+    rep.rule = "thread count N x every subset U of threads with an unreadable (non-UTF-8) kernel name x 3 rotations of a 12-name alphabet (ASCII, 15/16 bytes, non-ASCII UTF-8 incl. astral plane, inner/trailing whitespace, empty, whitespace only), plus the ThreadName fail point, plus a null-stack-pointer helper thread (dropped at suspension) with a readable / unreadable name created first / last; nontrivial = cases with at least one named AND one unnamed listed thread".into();
     rep.assume("a thread's kernel name is what /proc/<pid>/task/<tid>/comm returns while the target is quiescent; trailing whitespace may or may not be trimmed");
     if let Some(case) = &ctx.replay {
         let g = |k: &str| case.get(k).and_then(|v| v.as_u64()).unwrap_or(0);
-        let r = run_case(g("n") as usize, g("unreadable_mask"), g("rot") as usize, case.get("failpoint").and_then(|v| v.as_bool()).unwrap_or(false));
+        let r = run_case_h(g("n") as usize, g("unreadable_mask"), g("rot") as usize, case.get("failpoint").and_then(|v| v.as_bool()).unwrap_or(false), g("helper") as u8);
         rep.evaluations += 1;
         for (k, m) in r.fails {
             rep.violation(&k, &m, case.clone());
@@ -152,6 +189,18 @@ pub fn run(ctx: &Ctx, rep: &mut Report) {
     // the fail point is process-global: run those cases sequentially, everything else in parallel
     let (fp_cases, par_cases): (Vec<_>, Vec<_>) = cases.into_iter().partition(|c| c.3);
     let mut results = par_map(&par_cases, |_, c| run_case(c.0, c.1, c.2, c.3));
+    // a sandbox-helper look-alike (dropped at suspension) with a readable / unreadable name, created first / last,
+    // x every subset of unreadable names on 3 ordinary threads x (thorough) 5
+    let hn: Vec<usize> = if ctx.tier.is_thorough() { vec![2, 3, 5] } else { vec![3] };
+    let mut hcases: Vec<(usize, u64, u8)> = Vec::new();
+    for n in hn {
+        for u in 0..(1u64 << n) {
+            for helper in 1..=4u8 {
+                hcases.push((n, u, helper));
+            }
+        }
+    }
+    results.extend(par_map(&hcases, |_, c| run_case_h(c.0, c.1, 0, false, c.2)));
     for c in &fp_cases {
         results.push(run_case(c.0, c.1, c.2, c.3));
     }
